@@ -76,6 +76,15 @@ REGISTRY["C07"] = dict(
          "facets, delete return values) must equal the dictionary model.",
     note=_BOUNDED)
 
+REGISTRY["C08"] = dict(
+    modules=["harness.c08_values"],
+    technique="CrossHair symbolic column/mask/value/size codes over the real column writers and readers and the real add_document -> stored_fields/column_reader path",
+    text="A symbolic (column type, 6-bit document mask, value codes, document count, offsets cut-off) drives every shipped column writer "
+         "then reader at a non-zero base position: reader[d] and iteration give the supplied value or the default; RefBytes across its "
+         "256-value switch; 3 documents with symbolic field subsets through 6 storage/compound/merge/copy_to_ram configurations read "
+         "back by stored_fields, Hit[...] and column readers.",
+    note=_BOUNDED)
+
 REGISTRY["C09"] = dict(
     modules=["harness.c09_scores"], e2=True,
     technique="CrossHair symbolic query codes over the real scoring/matcher stack (score of op(a,b) vs composition of clause scores, layout independence) + z3 reals through the real bm25()",
